@@ -39,7 +39,7 @@ CLAIMS = {
                 "dispatched entry points, no write effect on the rendered object in the rendering call graph, every identity-less "
                 "reduction reachable from an entry point guarded against empty operands (obligation moved to call sites for helper "
                 "parameters, also through local function aliases), null-geometry accesses guarded, cell lists padded. Not decided: "
-                "exact widths/wording. Added later: print_ and the renderers use every option they accept; util.upad measures display width only; strict-JSON dumps reachable from rendering are partial operations. Round 7: memo tables keyed by a lossy projection of the dtype in the rendering functions. Round 9: language-trap lints (one-shot iterators consumed twice, closures over loop variables, mutable defaults, fromkeys with a mutable value, starred itemgetter results used as sequences) over the property's anchor files. Round 10: the first line of a split cell is read only under a dominating test about the cell. Round 11: no tolist() export (missing -> None) on the way to util.upad (GRD-text). Round 12: TRAP-frozen / TRAP-kwmerge as in C12.",
+                "exact widths/wording. Added later: print_ and the renderers use every option they accept; util.upad measures display width only; strict-JSON dumps reachable from rendering are partial operations. Round 7: memo tables keyed by a lossy projection of the dtype in the rendering functions. Round 9: language-trap lints (one-shot iterators consumed twice, closures over loop variables, mutable defaults, fromkeys with a mutable value, starred itemgetter results used as sequences) over the property's anchor files. Round 10: the first line of a split cell is read only under a dominating test about the cell. Round 11: no tolist() export (missing -> None) on the way to util.upad (GRD-text). Round 12: TRAP-frozen / TRAP-kwmerge as in C12. Round 13: no limit option of a renderer passes through int() (inf is a legitimate limit).",
         "note": TRUST,
         "technique": "override-compatibility + effect analysis + guard-dominates-partial-operation (CFG must-facts) + nullable-source rule",
     },
@@ -47,7 +47,7 @@ CLAIMS = {
         "text": "Necessary conditions of Vector.sort/rank/unique for all inputs: stable sort kinds, missing-last assembly with the "
                 "mask computed from the final vector on every exit, every rank branch fills both partitions and unknown methods "
                 "raise, first-occurrence indices sorted, and totality on empty / entirely missing vectors (reductions guarded, "
-                "fixed-width cast width >= 1 by interval analysis). Not decided: that the ranks are the right numbers. Added later: the rank of missing values is built on the number of non-missing elements (or the total length); every result of sort depends on dir. Round 9: language-trap lints (one-shot iterators consumed twice, closures over loop variables, mutable defaults, fromkeys with a mutable value, starred itemgetter results used as sequences) over the property's anchor files. De-duplication by hashing (NaN != NaN) in Vector.unique. Round 10: rank returns an empty result only for an empty vector. Round 11: the array-API spellings np.unique_all & co. (equal_nan=False) and equal_nan=False are reported; Vector.rank orders the values themselves. Round 13: no limit option of a renderer passes through int() (inf is a legitimate limit).",
+                "fixed-width cast width >= 1 by interval analysis). Not decided: that the ranks are the right numbers. Added later: the rank of missing values is built on the number of non-missing elements (or the total length); every result of sort depends on dir. Round 9: language-trap lints (one-shot iterators consumed twice, closures over loop variables, mutable defaults, fromkeys with a mutable value, starred itemgetter results used as sequences) over the property's anchor files. De-duplication by hashing (NaN != NaN) in Vector.unique. Round 10: rank returns an empty result only for an empty vector. Round 11: the array-API spellings np.unique_all & co. (equal_nan=False) and equal_nan=False are reported; Vector.rank orders the values themselves.",
         "note": TRUST,
         "technique": "CFG must-facts + tiny interval domain for guards; def-use rules for stability and NA-last structure",
     },
@@ -131,7 +131,7 @@ CLAIMS = {
         "text": "Necessary conditions of rbind/select/unselect/rename/cbind/update/modify/colnames assignment for all inputs: two-phase "
                 "rename, rbind over every input in argument order with an order-preserving union of names and NA parts built from one "
                 "reference column at the lacking input's row count, name-value provenance in select/rename/unselect, first-wins / "
-                "replace semantics of cbind/update/modify, untouched columns yielded whole. Not decided: NumPy promotion. Round 7: modify hands on every existing column unconditionally. Round 8: the colnames setter pops all columns; rename rejects no request because a name already exists. Round 9: language-trap lints (one-shot iterators consumed twice, closures over loop variables, mutable defaults, fromkeys with a mutable value, starred itemgetter results used as sequences) over the property's anchor files. Round 11: the union-of-names idiom of rbind is read in its chain.from_iterable / comprehension spellings too. Round 12: an empty request of select / unselect survives every rebinding (ARG-asgiven).",
+                "replace semantics of cbind/update/modify, untouched columns yielded whole. Not decided: NumPy promotion. Round 7: modify hands on every existing column unconditionally. Round 8: the colnames setter pops all columns; rename rejects no request because a name already exists. Round 9: language-trap lints (one-shot iterators consumed twice, closures over loop variables, mutable defaults, fromkeys with a mutable value, starred itemgetter results used as sequences) over the property's anchor files. Round 11: the union-of-names idiom of rbind is read in its chain.from_iterable / comprehension spellings too. Round 12: an empty request of select / unselect survives every rebinding (ARG-asgiven). Round 13: select / unselect never unwrap a single name into its characters and never re-order the requested names.",
         "note": TRUST,
         "technique": "def-use and loop-structure rules per method (name/value provenance), sibling NA-pair rule, loop-carried hazard rule",
     },
@@ -140,7 +140,7 @@ CLAIMS = {
                 "lists and evaluated over nine kinds with a trusted predicate table encoding NumPy's scalar hierarchy (timedelta64 is an "
                 "integer subtype); value, holding dtype and detector must match each other and the statement; the NA substitution "
                 "predicate equals the inference-ignore predicate and is unconditional; consumers use is_na only. Not decided: which "
-                "dtype NumPy infers for a mixed list; equivalence laws of equal; round trips. Added later: where the substituted missing value comes from (na_value of the known dtype, else guessed from util.unique_types over the WHOLE sequence), _np_array decides the dtype only when none was requested, equal compares only equal lengths, dates are inferred only from a non-empty type set, and/not in the decision lists. Round 7: memo tables keyed by a lossy projection of the dtype (type/num/kind/char); nan_to_num; every return of unique_types passes the None/NaN filter. Round 8: NA-blind exits of Vector methods; the None/NaN substitution is unguarded. Round 9: language-trap lints (one-shot iterators consumed twice, closures over loop variables, mutable defaults, fromkeys with a mutable value, starred itemgetter results used as sequences) over the property's anchor files. Round 10: replace_na / drop_na / is_na raise nothing themselves; masks built from lists state their dtype. Round 12: with an explicit dtype the substituted missing value is that dtype's na_value in every truthiness scenario (NA-dtype). Round 13: select / unselect never unwrap a single name into its characters and never re-order the requested names.",
+                "dtype NumPy infers for a mixed list; equivalence laws of equal; round trips. Added later: where the substituted missing value comes from (na_value of the known dtype, else guessed from util.unique_types over the WHOLE sequence), _np_array decides the dtype only when none was requested, equal compares only equal lengths, dates are inferred only from a non-empty type set, and/not in the decision lists. Round 7: memo tables keyed by a lossy projection of the dtype (type/num/kind/char); nan_to_num; every return of unique_types passes the None/NaN filter. Round 8: NA-blind exits of Vector methods; the None/NaN substitution is unguarded. Round 9: language-trap lints (one-shot iterators consumed twice, closures over loop variables, mutable defaults, fromkeys with a mutable value, starred itemgetter results used as sequences) over the property's anchor files. Round 10: replace_na / drop_na / is_na raise nothing themselves; masks built from lists state their dtype. Round 12: with an explicit dtype the substituted missing value is that dtype's na_value in every truthiness scenario (NA-dtype).",
         "note": TRUST + " Predicate/kind table in sa/props/C10.py.",
         "technique": "abstract evaluation of ordered decision lists over a finite kind lattice; predicate-equality of two comprehensions",
     },
